@@ -103,6 +103,16 @@ func c11Check(c c11Case) error {
 			return bugf("aux doc rejected: %v", err)
 		}
 		blob := s.Serialize(scratch[:0], *apj)
+		if st.Deser && st.Reuse && st.Aux%2 == 1 {
+			// an earlier call that fails late (unknown type of the last block) on this Serializer and destination
+			bad := append([]byte(nil), blob...)
+			if f, _, ferr := walkFrame(bad); ferr == nil && f.vals.present && len(f.vals.data) > 0 {
+				bad[len(bad)-len(f.vals.data)-1] = 0x7f
+				if _, err := s.Deserialize(bad, dst); err == nil {
+					return fmt.Errorf("history step %d: Deserialize accepted an unknown block type", i)
+				}
+			}
+		}
 		if st.Deser {
 			var d *simdjson.ParsedJson
 			if st.Reuse {
